@@ -41,13 +41,17 @@ func genC15(t *rapid.T) c15Case {
 		Dirty: rapid.Bool().Draw(t, "dirty"), Config: rapid.IntRange(0, 3).Draw(t, "config") > 0}
 	text := rapid.OneOf(rapid.SampledFrom([]string{"plain", "with \"quotes\" and $vars", "unicode é 日本 🐛", "-starts-with-dash", "multi\nline"}), GenTitle())
 	one := rapid.Custom(func(t *rapid.T) c15Step {
-		return c15Step{Kind: rapid.SampledFrom([]string{"new", "new", "comment", "comment", "title", "close", "open", "label", "rm", "select", "deselect", "push", "push", "pull", "pull", "peeredit", "peeredit", "attach", "show", "ls"}).Draw(t, "kind"),
+		return c15Step{Kind: rapid.SampledFrom([]string{"new", "new", "comment", "comment", "title", "close", "open", "label", "rm", "select", "deselect", "push", "push", "pull", "pull", "peeredit", "peeredit", "attach", "show", "ls", "gc"}).Draw(t, "kind"),
 			Bug: rapid.IntRange(0, 5).Draw(t, "bug"), Text: text.Draw(t, "text")}
 	})
 	c.Steps = rapid.SliceOfN(one, 5, 18).Draw(t, "steps")
 	if rapid.IntRange(0, 2).Draw(t, "planned") > 0 {
 		// a diverged bug merged on the host, and an attachment pushed
 		plan := []c15Step{{Kind: "new", Text: "shared"}, {Kind: "push"}, {Kind: "peeredit", Text: "peer"}, {Kind: "comment", Text: "host"}, {Kind: "pull"}, {Kind: "attach", Text: "x"}, {Kind: "push"}}
+		if rapid.Bool().Draw(t, "gcInPlan") {
+			// the user's git collects garbage between two commands: refs and objects get packed
+			plan = []c15Step{{Kind: "new", Text: "shared"}, {Kind: "push"}, {Kind: "gc"}, {Kind: "peeredit", Text: "peer"}, {Kind: "comment", Text: "host"}, {Kind: "pull"}, {Kind: "attach", Text: "x"}, {Kind: "gc"}, {Kind: "push"}, {Kind: "peeredit", Text: "again"}, {Kind: "pull"}}
+		}
 		at := rapid.IntRange(0, len(c.Steps)).Draw(t, "at")
 		out := append([]c15Step(nil), c.Steps[:at]...)
 		out = append(out, plan...)
@@ -250,7 +254,7 @@ func runC15(tb report.TB, rep *report.Reporter, c c15Case) {
 		}
 		return l[n%len(l)]
 	}
-	nPush, nPull, nAttach, merged := 0, 0, 0, false
+	nPush, nPull, nAttach, nGC, merged := 0, 0, 0, 0, false
 	var kinds []string
 	for i, s := range c.Steps {
 		kinds = append(kinds, s.Kind)
@@ -304,6 +308,14 @@ func runC15(tb report.TB, rep *report.Reporter, c c15Case) {
 			if strings.Contains(res.Out, "updated") {
 				merged = true
 			}
+		case "gc":
+			// stock git, run by the user between two git-bug commands
+			if g := RunGit(host, "gc", "-q"); g.Code != 0 {
+				if fail("stock-git-gc-fails/"+Normalize(firstLine(g.Out)), g.Out) {
+					return
+				}
+			}
+			nGC++
 		case "peeredit":
 			// the peer syncs, edits what it has (or creates), and pushes: the host will have to merge
 			run(peer, "pull", "origin")
@@ -345,7 +357,7 @@ func runC15(tb report.TB, rep *report.Reporter, c c15Case) {
 	}
 	after := hostState(host)
 	rep.Case(strings.Join(kinds, ","), (nPush+nPull) > 0 && (nAttach > 0 || merged),
-		[]string{"head:" + c.Head, fmt.Sprintf("dirty:%v", c.Dirty), fmt.Sprintf("rich-config:%v", c.Config), fmt.Sprintf("merged:%v", merged), fmt.Sprintf("attachments:%v", nAttach > 0)}, c)
+		[]string{"head:" + c.Head, fmt.Sprintf("dirty:%v", c.Dirty), fmt.Sprintf("rich-config:%v", c.Config), fmt.Sprintf("merged:%v", merged), fmt.Sprintf("attachments:%v", nAttach > 0), fmt.Sprintf("gc-between-commands:%v", nGC > 0)}, c)
 	if aspect, detail := before.diff(after); aspect != "" {
 		if fail("host-repository-disturbed/"+aspect, detail) {
 			return
